@@ -978,19 +978,23 @@ class Builder:
         if e["k"] == "lit" and e["t"] == "int":
             return (int(e["v"]), int(e["v"]))
         if e["k"] == "range":
+            # the bounds are integer constants: literals, or named constants / constant expressions of the crate
             lo = 0
             hi = None
             if e["from"] is not None:
-                if e["from"]["k"] != "lit":
+                lo = rx.int_const(e["from"])
+                if lo is None:
                     return None
-                lo = int(e["from"]["v"])
             if e["to"] is not None:
-                if e["to"]["k"] != "lit":
+                hi = rx.int_const(e["to"])
+                if hi is None:
                     return None
-                hi = int(e["to"]["v"])
                 if not e["closed"]:
                     hi -= 1
             return (lo, hi)
+        n_ = rx.int_const(e) if e.get("k") == "path" else None
+        if n_ is not None:
+            return (n_, n_)
         return None
 
     def _pe_call(self, e, env):
